@@ -39,6 +39,34 @@ BUILTIN_EXC = {
 }
 
 
+_SYMCACHE: dict = {}
+
+
+def _symbols(e):
+    """Names of the uninterpreted constants / functions occurring in e (cached by AST id)."""
+    key = e.get_id()
+    hit = _SYMCACHE.get(key)
+    if hit is not None:
+        return hit
+    out, seen, todo = set(), set(), [e]
+    while todo:
+        t = todo.pop()
+        if t.get_id() in seen:
+            continue
+        seen.add(t.get_id())
+        if z3.is_quantifier(t):
+            todo.append(t.body())
+            continue
+        if z3.is_app(t):
+            if t.decl().kind() == z3.Z3_OP_UNINTERPRETED:
+                out.add(t.decl().name())
+            todo.extend(t.children())
+    if len(_SYMCACHE) > 200000:
+        _SYMCACHE.clear()
+    _SYMCACHE[key] = frozenset(out)
+    return _SYMCACHE[key]
+
+
 class Ctx:
     """Per-contract shared context."""
 
@@ -130,11 +158,15 @@ class LoopSpec:
     unroll: int|None -> unroll exactly n times when the iteration count is concrete
     """
 
-    def __init__(self, inv=None, variant=None, havoc_heap=None, name=None):
+    def __init__(self, inv=None, variant=None, havoc_heap=None, name=None, prefix=False):
         self.inv = inv
         self.variant = variant
         self.havoc_heap = havoc_heap
         self.name = name
+        # prefix=True (for-loops over a sequence): env['_prefix'] names the sequence of the items consumed so far -
+        # empty on entry, `p` with len(p) == k at the head of an arbitrary iteration, p ++ [seq[k]] after it, and
+        # p == seq when the loop exits normally (facts about prefixes of the iterated sequence, not about the code)
+        self.prefix = prefix
 
 
 class FuncVal:
@@ -188,6 +220,19 @@ class Executor:
         return s
 
     def feasible(self, st: State, extra=None) -> bool:
+        if getattr(self.ctx, 'feasibility_ematch_only', False):
+            # contracts with many quantified assumptions: the default strategy (MBQI) runs into its timeout on every
+            # query; only instantiation is tried - an undetected infeasible path merely yields extra (valid) VCs
+            from .solve import _has_quantifier
+            if _has_quantifier(st.pc):
+                s = self._solver()
+                s.set('smt.mbqi', False)
+                s.set('smt.auto_config', False)
+                s.add(*st.pc)
+                if extra is not None:
+                    s.add(extra)
+                self.ctx.stats['feasibility_queries'] += 1
+                return s.check() != z3.unsat
         s = self._solver()
         s.add(*st.pc)
         if extra is not None:
@@ -203,6 +248,42 @@ class Executor:
             return False
         self.ctx.stats['feasibility_queries'] += 1
         from .solve import _has_quantifier
+        if _has_quantifier(st.pc) and getattr(self.ctx, 'feasibility_ematch_only', False):
+            # many quantified assumptions: (1) the ground part of the path condition alone, (2) instantiation only;
+            # the default strategy would run into its timeout on every query that is not entailed
+            ground = [c for c in st.pc if not _has_quantifier([c])]
+            s = self._solver()
+            s.add(*ground)
+            s.add(z3.Not(f))
+            if s.check() == z3.unsat:
+                return True
+            # only the quantified assumptions that mention a symbol of the query can contribute (dropping hypotheses is
+            # sound for an entailment check)
+            fs = set(_symbols(f))
+            quant = [c for c in st.pc if _has_quantifier([c])]
+            # a read of a member that no assumption mentions at all: nothing is known about it
+            t = f.arg(0) if z3.is_app(f) and f.num_args() == 1 else None
+            if t is not None and z3.is_select(t) and z3.is_const(t.arg(0)) \
+                    and t.arg(0).decl().kind() == z3.Z3_OP_UNINTERPRETED:
+                nm = t.arg(0).decl().name()
+                if not any(nm in _symbols(c) for c in st.pc):
+                    return False
+            # symbols linked to the query through small ground facts (equalities naming a term), two rounds
+            for _ in range(2):
+                for c in ground:
+                    cs = _symbols(c)
+                    if len(cs) <= 8 and (cs & fs):
+                        fs |= cs
+            rel = [c for c in quant if _symbols(c) & fs]
+            if not rel:
+                return False
+            s = self._solver()
+            s.set('smt.mbqi', False)
+            s.set('smt.auto_config', False)
+            s.add(*ground)
+            s.add(*rel)
+            s.add(z3.Not(f))
+            return s.check() == z3.unsat
         if _has_quantifier(st.pc):
             # quantified path conditions: instantiation-only run first (stable; a timeout of the default strategy
             # would silently lose precision and make the generated VCs differ from run to run)
@@ -1049,8 +1130,11 @@ class Executor:
         """Cut-point treatment of a for loop over a symbolic sequence."""
         outs = []
         seq_info = models.iter_seq(self, st, it)   # (seq term | None, length term | None, elem_fn)
+        use_prefix = spec is not None and getattr(spec, 'prefix', False) and seq_info[0] is not None
         if spec is not None and spec.inv is not None:
             env0 = {'_k': z3.IntVal(0), '_seq': seq_info[0], '_n': seq_info[1], '_entry': st, '_phase': 'entry'}
+            if use_prefix:
+                env0['_prefix'] = z3.Empty(SeqVal)
             self.oblige_inv(st, f'{name}.inv_entry', spec.inv(self, st, env0), {'line': node.lineno})
         h = st.fork()
         self.havoc_loop_state(node, h, spec)
@@ -1062,11 +1146,19 @@ class Executor:
             n = fresh(IntS, '_n')
         h.assume(n >= 0)
         env = {'_k': k, '_seq': seq_info[0], '_n': n, '_entry': st, '_phase': 'assume'}
+        h.ghost['c:k%d' % self.loop_ordinal(node)] = k      # iteration counter of this loop, for invariants of loops nested in its body
+        pre = None
+        if use_prefix:
+            pre = fresh(SeqVal, '_prefix')
+            h.assume(z3.Length(pre) == k)
+            env['_prefix'] = pre
         if spec is not None and spec.inv is not None:
             h.assume(self.inv_formula(spec.inv(self, h, env)))
         # exit: all items consumed
         s_exit = h.fork()
         s_exit.assume(k == n)
+        if pre is not None:
+            s_exit.assume(pre == seq_info[0])     # the prefix of length len(seq) is the sequence itself
         if self.feasible(s_exit):
             outs.extend(self.exec_block(node.orelse, s_exit) if node.orelse else [(s_exit, None)])
         s_body = h.fork()
@@ -1074,6 +1166,9 @@ class Executor:
         s_body.sym_alloc = True
         if self.feasible(s_body):
             item = seq_info[2](s_body, k)
+            if pre is not None:
+                # the item of this iteration is a member of the iterated sequence (k is in range)
+                s_body.assume(z3.Contains(seq_info[0], z3.Unit(seq_info[0][k])))
             for s1, sig1 in self.assign(node.target, item, s_body):
                 if sig1 is not None:
                     outs.append((s1, sig1))
@@ -1083,6 +1178,8 @@ class Executor:
                         self.check_kind_stability(node, s2, name)
                         if spec is not None and spec.inv is not None:
                             env2 = {'_k': k + 1, '_seq': seq_info[0], '_n': n, '_entry': st, '_phase': 'preserve'}
+                            if pre is not None:
+                                env2['_prefix'] = z3.Concat(pre, z3.Unit(seq_info[0][k]))
                             self.oblige_inv(s2, f'{name}.inv_preserved', spec.inv(self, s2, env2), {'line': node.lineno})
                     elif sig[0] == 'brk':
                         outs.append((s2, None))
